@@ -82,9 +82,12 @@ var props = map[string]propSpec{
 		{Pkg: "rotation", Fn: "VerifC10Adversary", Validate: 16, MustReach: []string{"rotated", "refused"}, Panics: true, ShardBits: 4},
 	}, Assumptions: with(), Explanation: "RotateNodeCredentials after two honest enrollments"},
 	"C11": {Harnesses: []harnessSpec{
-		{Pkg: ".", Fn: "VerifC11Arbitrary", Validate: 2},
-		{Pkg: ".", Fn: "VerifC11RoundTrip", Validate: 3},
-	}, Assumptions: with(), Explanation: "Encrypt/DecryptMessage with the aead dependency from SSA"},
+		{Pkg: ".", Fn: "VerifC11Arbitrary", Validate: 8, MustReach: []string{"returned"}, Panics: true},
+		{Pkg: ".", Fn: "VerifC11RoundTrip", Validate: 8, MustReach: []string{"decrypted", "refused"}, Panics: true},
+		{Pkg: ".", Fn: "VerifC11Mutated", Validate: 6, MustReach: []string{"opened", "refused"}, Panics: true},
+		{Pkg: "types", Fn: "VerifC11KeyAgreement", Validate: 8, MustReach: []string{"opened", "refused"}, Panics: true},
+	}, Assumptions: with("AEAD assumption: a ciphertext value different from the sealed one never opens (bit flips, truncation and extension are 'a different value'); AES-GCM itself is not encoded", "the aead wrapper of go-kms-wrapping (SetConfig, options, Encrypt, Decrypt incl. its unchecked [:12] split) is executed from its real SSA"),
+		Explanation: "Encrypt/DecryptMessage with the aead dependency from SSA: arbitrary envelopes, binding to key and key ID incl. previous keys, modified ciphertexts, node-side/server-side key agreement in both directions"},
 	"C12": {Harnesses: []harnessSpec{
 		{Pkg: "types", Fn: "VerifC12NodeInfo", Validate: 2},
 		{Pkg: "types", Fn: "VerifC12Token", Validate: 1},
